@@ -197,7 +197,7 @@ def run_engine(tier="quick", seed=0, langs=LANGS, use_cache=True):
     errors = []
     for rc, out, err in outs:
         if rc != 0:
-            errors.append(err[-2000:])
+            errors.append(("coqc exit status %d%s " % (rc, " (time limit)" if rc == 124 else "")) + err[-2000:])
         got.update(core.parse_results(out))
     for cid in cases:
         pid, lang = cid.split("|")
@@ -243,7 +243,10 @@ def shard_body(body, per):
     if cur:
         groups.append(cur)
     # balance by size: big programs dominate the evaluation time
-    nshards = max(1, min(16, (len(groups) + per - 1) // per))
+    # at least 16 bins (one per core); more when the corpus is large, so that no single coqc run
+    # grows past a few minutes (the thorough tier once lost a shard to the evaluation time limit)
+    total = sum(len(l) for g in groups for l in g)
+    nshards = max(1, min(len(groups), max((len(groups) + per - 1) // per, total // 400000)))
     bins = [[0, []] for _ in range(nshards)]
     for g in sorted(groups, key=lambda g: -sum(len(l) for l in g)):
         b = min(bins, key=lambda b: b[0])
